@@ -220,6 +220,57 @@ def check_block_layers(ctx, prog, tag):
                        "when BlockStack::push() reports that no further layer exists perform_super does not return "
                        "Err on every path", ps.where(sb))
         ctx.ob("C06.I5.super-tests-push", tag + "perform_super", tested, "result of push() is not branched on", ps.where(c.bb))
+    # -- I6: the block table belongs to one inheritance family.  Code of the same family (a layer taken from a
+    # BlockStack) runs on the caller's table; anything else - an included template, a macro body - must get its own
+    # (Replace) or a checkpointed one (Isolate), on every path.
+    BSTATE = "minijinja::vm::state::BlockState"
+    n6 = 0
+    for f in prog.fns.values():
+        if f.crate != "minijinja":
+            continue
+        for c in f.calls_to(WES):
+            bs_arg = None
+            for a in c.args:
+                p_ = op_place(a)
+                if p_ is not None and "p" not in p_ and f.locals[p_["l"]].get("adt") == BSTATE:
+                    bs_arg = a
+            if bs_arg is None:
+                continue
+            n6 += 1
+            kinds = set()
+            for o in flow.origins(f, bs_arg):
+                if o.kind == "agg" and o.rv.get("adt") == BSTATE:
+                    kinds.add(o.rv.get("variant"))
+                elif o.kind == "const":
+                    d = o.const.get("d", "")
+                    kinds.add("Keep" if "Keep" in d else "Isolate" if "Isolate" in d else "Replace" if "Replace" in d else "?")
+                else:
+                    kinds.add("?")
+            src = flow.origins(f, c.args[1])
+            same_family = bool(src) and all(o.kind == "call" and o.call.name == BS_INSTR for o in src)
+            if same_family:
+                ok = kinds == {"Keep"}
+                why = "a block layer must run on the table it was taken from (Keep)"
+            else:
+                ok = bool(kinds) and kinds <= {"Replace", "Isolate"}
+                why = "code of another template (included template, macro body) must not run on the caller's block " \
+                      "table: its extends/blocks would be appended to the caller's stacks and stay there"
+            ctx.ob("C06.I6.block-table-follows-the-template-family", tag + f.path, ok,
+                   "with_execution_state is entered with BlockState %s; %s" % (sorted(kinds), why), f.where(c.bb))
+            if "Replace" in kinds:
+                # the replacing table is built from the blocks of the template whose instructions are entered
+                good = False
+                for o in flow.origins(f, bs_arg):
+                    if o.kind == "agg" and o.rv.get("variant") == "Replace":
+                        for o2 in flow.origins(f, o.rv["ops"][0]):
+                            if o2.kind == "call" and o2.call.name.endswith("prepare_blocks"):
+                                a_src = {(x.call.bb) for x in flow.origins(f, o2.call.args[0]) if x.kind == "call"}
+                                i_src = {(x.call.bb) for x in src if x.kind == "call"}
+                                good = bool(a_src) and a_src == i_src
+                ctx.ob("C06.I6.replacing-table-is-the-entered-template's", tag + f.path, good,
+                       "BlockState::Replace is not built by prepare_blocks from the same instructions_and_blocks() "
+                       "result as the instructions that are entered", f.where(c.bb))
+    ctx.floor("C06.I6 with_execution_state call sites" + tag, n6, 3)
     for fn_, nm in ((ps, "perform_super"), (prog.fn(CB), "call_block")):
         ok = False
         for c in fn_.calls_to(WES):
